@@ -13,7 +13,7 @@ GEN = [constants.gen]
 TIE = ['Ufw.Tie.Regp']
 RULE = ("{read, write} x {8, 16}-bit request semantics x {8, 16}-bit attached memory (matching and mismatching) x {serial, tcp} x every "
         "backend verdict 0..11 (and an out-of-range verdict) x addresses (0, SLIP control octets, 0xffffffff, random) x block sizes "
-        "0..capacity+2 around the transmit limit x payloads incl. C0/DB octets x sequence numbers; sessions interleaving requests with "
+        "0..capacity+2 around the transmit limit x allocator block sizes 128/129/255 (even and odd room) x payloads incl. C0/DB octets x sequence numbers; sessions interleaving requests with "
         "responses, meta messages and damaged frames (which must cause neither access nor, for non-requests, a reply); each frame is fed to "
         "the instance, received, processed and released.  Non-trivial = the backend was called; distinct = distinct operation text.")
 EXHAUSTIVE = {"quick": False, "thorough": False}
@@ -56,9 +56,10 @@ def cases(tier, seed):
     reps = 1 if tier == "quick" else 4
     for mem in (8, 16):
         unit = mem // 8
-        for ep in ("serial", "tcp"):
+        for ep, B in [(e, b) for e in ("serial", "tcp") for b in (128, 129, 255)]:
+            # block sizes: even and odd (with an odd block the room behind the structure is odd: a capacity in octets
+            # that is not a whole number of 16-bit words)
             serial = ep == "serial"
-            B = 128
             ops = [R.cfg(mem, ep, B)]
             hdr = 14 if serial else 12
             cap = (B - R.F - hdr) // unit          # largest read that fits
@@ -85,7 +86,7 @@ def cases(tier, seed):
             # largest writes
             for n in range(max(1, wcap - 2), wcap + 1):
                 ops += ["rp.backend 0 0 0"] + feed(serial, R.request(serial, True, mem == 16, n, n, n, R.rbytes(rnd, n * unit))) + rpf()
-            cs.append(Case("req-%d-%s" % (mem, ep), ops, ("requests", ep, str(mem))))
+            cs.append(Case("req-%d-%s-%d" % (mem, ep, B), ops, ("requests", ep, str(mem))))
             # sessions: requests interleaved with frames that must not be executed
             ops = [R.cfg(mem, ep, B), "rp.backend 0 0 1"]
             for i in range(30 * reps):
@@ -122,7 +123,7 @@ def cases(tier, seed):
                     fr[-1] ^= 0x10
                     ops += feed(serial, fr)
                 ops += rpf()
-            cs.append(Case("session-%d-%s" % (mem, ep), ops, ("session", ep, str(mem))))
+            cs.append(Case("session-%d-%s-%d" % (mem, ep, B), ops, ("session", ep, str(mem))))
     # process without a frame / called twice / after free
     ops = [R.cfg(16, "serial", 128), "rp.process", "rp.backend 0 0 0"] + feed(True, R.request(True, False, True, 1, 2, 3)) + \
           ["rp.recv", "rp.process", "rp.process", "rp.free", "rp.process"]
